@@ -35,7 +35,7 @@ RegPool == <<0, 0, 0, 97, 98, 65>>
 Counts == <<0, 0, 0, 0, 2, 3, 9, 1>>
 
 MotionKinds == <<"h", "l", "j", "k", "0", "^", "$", "|", "w", "b", "e", "W", "B", "E", "f", "F", "t", "T", ";", ",", "G", "+", "-", "_",
-                 "%", "{", "}", "H", "M", "L", " ", "^H", "'", "`", "N%", "w", "e", "b", "j", "k", "l", "h", "f", "t">>
+                 "%", "{", "}", "H", "M", "L", " ", "^H", "'", "`", "N%", "w", "e", "b", "j", "k", "l", "h", "f", "t", "[[", "]]">>
 SearchKinds == <<"/", "?", "n", "N", "^A", "n", "/", "/", "?", "N">>
 GenMotion(vs, sd, t, j, searches) ==
     LET k == IF searches THEN Elem(sd, t, j, SearchKinds) ELSE Elem(sd, t, j, MotionKinds)
